@@ -46,7 +46,9 @@ def evaluate(i, salt, ncell):
     return ((i * 7 + salt) % ncell, (i * 13 + salt // 7) % ncell), (i * 5 + salt) % 4
 
 
-def gen_case(rng, tier):
+def gen_case(rng, tier, wide=False):
+    """wide: one round with more than a thousand rows in total (a scheduler that inserts a round in pieces must still hand every
+    emitter the feedback of ONE archive.add on the whole round)"""
     kind = rng.choice(ARCHIVES)
     extra = rng.choice([[], [], ["tag"], ["vec", "tag"], ["tag", "vec"]])
     n_em = rng.choice([1, 2, 2, 3, 3, 4, 5, 6])
@@ -59,6 +61,8 @@ def gen_case(rng, tier):
     nops = rng.randint(4, 14 if tier == "quick" else 30)
     ops, phase, next_id = [], None, 1
     p_illegal = rng.choice([0.0, 0.3, 0.3, 0.45])
+    if wide:
+        case["mode"], nops, p_illegal = "batch", 4, 0.0
     while len(ops) < nops:
         legal = {None: ["ask", "ask_dqd"], "ask": ["tell"], "ask_dqd": ["tell_dqd"]}[phase]
         if rng.random() < p_illegal:
@@ -69,7 +73,9 @@ def gen_case(rng, tier):
             style = rng.random()
             sizes = []
             for _ in range(n_em):
-                if style < 0.15:
+                if wide:
+                    sizes.append(rng.choice([300, 450, 700]) if len(sizes) < 3 else rng.choice([0, 1, 5]))
+                elif style < 0.15:
                     sizes.append(0)
                 elif style < 0.3:
                     sizes.append(rng.choice([0, 1]))
@@ -470,6 +476,12 @@ def check(rep, tier, seed, driver):
             cases.append(json.load(open(os.path.join(cdir, f))))
     rep.count("corpus_cases", len(cases))
     cases += [gen_case(rng, tier) for _ in range(n)]
+    for _ in range(2 if tier == "quick" else 8):
+        wc = gen_case(rng, tier, wide=True)
+        while len(wc["emitters"]) < 3 or wc["archive"].startswith("proximity"):
+            wc = gen_case(rng, tier, wide=True)
+        cases.append(wc)
+        rep.count("wide_round_cases")
     n_modes = 0
     for case in cases:
         rep.count("archive_" + case["archive"])
